@@ -307,6 +307,25 @@ func registerIntrinsics(e *Engine) {
 		e.store(p, e.deepCopy(ent.v, ent.t))
 		return boolV(true)
 	}
+	in[v("LenOf")] = func(e *Engine, a []Value, c *callCtx) Value {
+		ifc, _ := a[0].O.(*Iface)
+		if ifc == nil {
+			return intV(0)
+		}
+		return intV(uint64(ifc.v.slice().len))
+	}
+	in[v("SwapElems")] = func(e *Engine, a []Value, c *callCtx) Value {
+		ifc, _ := a[0].O.(*Iface)
+		if ifc == nil || a[1].T != nil || a[2].T != nil {
+			e.unsupported("SwapElems on nil or with symbolic index")
+		}
+		s := ifc.v.slice()
+		i, j := int(a[1].N), int(a[2].N)
+		x, y := e.arrGet(s.arr, s.off+i), e.arrGet(s.arr, s.off+j)
+		e.arrSet(s.arr, s.off+i, y)
+		e.arrSet(s.arr, s.off+j, x)
+		return Value{}
+	}
 	in[v("Yield")] = func(e *Engine, a []Value, c *callCtx) Value { return Value{} }
 	in[v("Logf")] = func(e *Engine, a []Value, c *callCtx) Value { return Value{} }
 
@@ -820,6 +839,27 @@ func (e *Engine) hashUF(kind string, in []Value, outBytes int) []Value {
 	}
 	name := fmt.Sprintf("%s_%d", kind, len(in))
 	res := e.tt.UF(name, arg, uint16(outBytes*8))
+	if kind == "fnv128a" {
+		// FNV-128a is assumed collision-free among the (few, short) keys of one
+		// run: distinct arguments give distinct hashes.
+		for _, prev := range e.ps.ufApps[name] {
+			if prev[0] != arg {
+				e.assumeTerm(e.tt.Or(e.tt.Eq(prev[0], arg), e.tt.Not(e.tt.Eq(prev[1], res))))
+			}
+		}
+		apps := e.ps.ufApps[name]
+		seen := false
+		for _, p := range apps {
+			if p[0] == arg {
+				seen = true
+			}
+		}
+		if !seen {
+			old := apps
+			e.ps.ufApps[name] = append(append([][2]*Term(nil), apps...), [2]*Term{arg, res})
+			e.trail = append(e.trail, trailEntry{fn: func() { e.ps.ufApps[name] = old }})
+		}
+	}
 	for i := range out {
 		hi := uint16((outBytes-i)*8 - 1)
 		out[i] = Value{T: e.tt.Extract(res, hi, hi-7)}
